@@ -213,13 +213,15 @@ class GdbSim:
         self.world.conns.append(c)
         slot.conn = c
         slot.generation += 1
-        slot.addr = self.mem.alloc(64, reuse=True)
+        slot.addr = self.mem.alloc(64, reuse=(slot.generation + slot.index) % 3 != 0)
         c.address = slot.addr
         if slot.last_addr is not None and slot.addr == slot.last_addr:
             self.bump('probe_address_reused')
         if slot.side == 'client':
             t = self.gdb.lookup_type('wl_display')
-            slot.display_addr = self.mem.alloc(t.sizeof)
+            # wl_display structs are freed on disconnect too: a later display often sits at the old address while its
+            # wl_connection (a separate allocation) may or may not get its old address back
+            slot.display_addr = self.mem.alloc(t.sizeof, reuse=True)
             self.mem.write(slot.display_addr, struct.pack('<QQI', self.interface('wl_display'), 0, 1))
             self.mem.write(slot.display_addr + t.field('connection').bitpos // 8, struct.pack('<Q', slot.addr))
             self.obj_addr[c.display.key()] = slot.display_addr
@@ -482,6 +484,10 @@ class GdbSim:
                         self.conn_events.append(('close', c.index, self.rec.seq))
                     addr = slot.addr
                     self.mem.release(slot.addr, 64)
+                    if slot.display_addr is not None:
+                        self.mem.release(slot.display_addr, self.gdb.lookup_type('wl_display').sizeof)
+                        self.obj_addr.pop(c.display.key(), None)
+                        slot.display_addr = None
                     slot.last_addr = slot.addr
                     slot.conn = None
                     slot.addr = None
